@@ -101,6 +101,9 @@ class UnusedTranslator:
             ):
                 for elem in stm.head.elements:
                     self._add_usage_stm(elem.literal)
+            if stm.ast_type == ASTType.Rule and stm.head.ast_type == ASTType.Literal and stm.head.sign != Sign.NoSign:
+                # "not a :- body." is the constraint ":- body, a.": the head uses a
+                self._add_usage_stm(stm.head)
             if stm.ast_type in (ASTType.ShowSignature, ASTType.ProjectSignature):
                 pred = Predicate(stm.name, stm.arity)
                 self.used.add(pred)
